@@ -6,7 +6,7 @@ use crate::gen::*;
 use crate::lintmon::{self, reference_apply};
 use harper_core::linting::{Lint, LintGroup, LintKind, Linter, Suggestion};
 use harper_core::parsers::PlainEnglish;
-use harper_core::{make_title_case_str, remove_overlaps, Dialect, Document, FstDictionary, Span, TokenKind};
+use harper_core::{make_title_case_str, remove_overlaps, Dialect, Dictionary, Document, FstDictionary, Span, TokenKind};
 use serde_json::json;
 
 // ------------------------------------------------------------------------------------------
@@ -482,8 +482,42 @@ pub fn c18(ctx: &mut Ctx) {
             ctx.end_case();
         }
     }
+    // dictionary words that have a canonical capitalisation (proper nouns), typed in lower case and re-spelt with
+    // compatibility characters (ligatures from PDF text, long s, full-width letters, soft hyphen, typographic apostrophe):
+    // title-casing looks such words up and copies the dictionary's spelling over them
+    {
+        let mut proper: Vec<String> = dict.words_iter().filter(|w| w.first().map(|c| c.is_uppercase()).unwrap_or(false) && w.len() >= 4).map(|w| w.iter().collect()).collect();
+        proper.sort();
+        let subs: [(&str, &str); 10] = [("ffi", "\u{FB03}"), ("ffl", "\u{FB04}"), ("fi", "\u{FB01}"), ("fl", "\u{FB02}"), ("ff", "\u{FB00}"), ("st", "\u{FB06}"), ("s", "\u{017F}"), ("'", "\u{2019}"), ("k", "\u{212A}"), ("i", "\u{0131}")];
+        let stride = ctx.budget(2, 1).max(1) as usize;
+        for (wi, w) in proper.iter().enumerate() {
+            if wi % stride != (ctx.seed as usize) % stride {
+                continue;
+            }
+            let low = w.to_lowercase();
+            for (from, to) in subs {
+                if !low.contains(from) {
+                    continue;
+                }
+                idx += 1;
+                if !ctx.mine(idx) {
+                    continue;
+                }
+                let re = low.replacen(from, to, 1);
+                for text in [format!("the {re} ocean"), format!("{re} and the rest of it"), format!("a trip to {re}")] {
+                    if !ctx.begin_case(|| json!({"fam": "c18-proper", "text": text}).to_string()) {
+                        continue;
+                    }
+                    let mut rep = std::mem::take(&mut ctx.report);
+                    check_title(&mut rep, &dict, &text, if wi % 5 == 0 { "wasm" } else { "core" });
+                    ctx.report = rep;
+                    ctx.end_case();
+                }
+            }
+        }
+    }
     // generated clauses / unicode
-    let n = ctx.budget(150_000, 40_000_000);
+    let n = ctx.budget(1_500_000, 40_000_000);
     let mut rng = ctx.rng_global("c18");
     for i in 0..n {
         idx += 1;
